@@ -28,6 +28,84 @@ def _load():
     if REGISTRY:
         return
     from . import selftest_cases  # noqa: F401  (fills REGISTRY)
+    _load_seeded()
+
+
+SEEDED = os.path.join(os.path.dirname(os.path.dirname(os.path.abspath(__file__))), 'seeded')
+
+
+def _load_seeded():
+    """the stored seeded changes (/verif/seeded/<id>/patch.diff, written by independent sessions from the property text alone) are replayed as mutants"""
+    import json
+    if not os.path.isdir(SEEDED):
+        return
+    for d in sorted(os.listdir(SEEDED)):
+        pd, mj = os.path.join(SEEDED, d, 'patch.diff'), os.path.join(SEEDED, d, 'meta.json')
+        if os.path.isfile(pd) and os.path.isfile(mj):
+            try:
+                prop = json.load(open(mj))['property']
+            except Exception:
+                continue
+            REGISTRY.append((prop, 'seed', d, pd, None, None, None))
+
+
+def apply_unified(patch_text, read):
+    """apply a git unified diff to texts obtained from read(path); returns {path: new text}; ValueError when a hunk does not match"""
+    import re
+    files = []           # (path, [(old start, [(tag, text), ...]), ...])
+    lines = patch_text.split('\n')
+    k = 0
+    while k < len(lines):
+        ln = lines[k]
+        if ln.startswith('+++ '):
+            cur = ln[4:].strip()
+            files.append((cur[2:] if cur.startswith('b/') else cur, []))
+            k += 1
+        elif ln.startswith('@@') and files:
+            m = re.match(r'@@ -(\d+)(?:,(\d+))? \+(\d+)(?:,(\d+))? @@', ln)
+            need_old = int(m.group(2)) if m.group(2) is not None else 1
+            need_new = int(m.group(4)) if m.group(4) is not None else 1
+            body = []
+            k += 1
+            while k < len(lines) and (need_old > 0 or need_new > 0):
+                b_ = lines[k]
+                k += 1
+                if b_.startswith('\\'):
+                    continue
+                tag, txt = (b_[:1], b_[1:]) if b_ else (' ', '')
+                if tag == ' ':
+                    need_old -= 1
+                    need_new -= 1
+                elif tag == '-':
+                    need_old -= 1
+                elif tag == '+':
+                    need_new -= 1
+                else:
+                    raise ValueError('malformed hunk line %r' % b_)
+                body.append((tag, txt))
+            files[-1][1].append((int(m.group(1)), body))
+        else:
+            k += 1
+    out = {}
+    for path, hs in files:
+        src = read(path).split('\n')
+        res, at = [], 0
+        for start, body in hs:
+            i = max(start - 1, 0)
+            res.extend(src[at:i])
+            for tag, txt in body:
+                if tag in (' ', '-'):
+                    if i >= len(src) or src[i] != txt:
+                        raise ValueError('%s mismatch in %s at line %d' % ('context' if tag == ' ' else 'removed line', path, i + 1))
+                    if tag == ' ':
+                        res.append(src[i])
+                    i += 1
+                else:
+                    res.append(txt)
+            at = i
+        res.extend(src[at:])
+        out[path] = '\n'.join(res)
+    return out
 
 
 CASE_TIMEOUT = 420
@@ -56,22 +134,41 @@ def _one(case):
 
 def _one_inner(case):
     prop, kind, name, file, old, new, rule = case
-    edits = file if isinstance(file, list) else [(file, old, new)]
     overlay = {}
     base = SourceTree()
+    if kind == 'seed':
+        try:
+            overlay = apply_unified(open(file).read(), base.text)
+        except Exception as e:
+            return (prop, kind, name, 'stale', 'patch does not apply to the current tree: %s' % e)
+        edits = []
+    else:
+        edits = file if isinstance(file, list) else [(file, old, new)]
     for f, o, n in edits:
         try:
             txt = overlay.get(f) or base.text(f)
         except Exception:
             return (prop, kind, name, 'stale', 'file missing: %s' % f)
-        if txt.count(o) < 1:
+        occ = 0
+        if isinstance(o, tuple):          # (text, k): edit the k-th occurrence (0-based)
+            o, occ = o
+        if txt.count(o) < occ + 1:
             return (prop, kind, name, 'stale', 'text to edit not present in %s' % f)
-        overlay[f] = txt.replace(o, n, 1)
+        at = -1
+        for _ in range(occ + 1):
+            at = txt.index(o, at + 1)
+        overlay[f] = txt[:at] + n + txt[at + len(o):]
     tree = SourceTree(overlay=overlay)
     ctx, err = run_property(prop, 'quick', tree)
     from .core import load_known, match_known
     known = load_known(prop)
     failing = [o for o in ctx.obs if not o.ok and match_known(o, known) is None]
+    if kind == 'seed':
+        if failing:
+            return (prop, kind, name, 'ok', '%s @ %s' % (failing[0].rule, failing[0].locator))
+        if err:
+            return (prop, kind, name, 'ERROR-ONLY', err.splitlines()[0][:200])
+        return (prop, kind, name, 'MISSED', 'seeded change applied but no obligation failed')
     if kind == 'mutant':
         hit = [o for o in failing if rule is None or o.rule.startswith(rule)]
         if hit:
@@ -97,13 +194,19 @@ def run_for(prop, jobs=None):
     if cases:
         with ProcessPoolExecutor(max_workers=jobs or min(16, len(cases))) as ex:
             res = list(ex.map(_one, cases))
-    out = {'mutants': 0, 'mutants_detected': 0, 'benign_twins': 0, 'benign_silent': 0, 'stale': 0, 'failures': [], 'results': []}
+    out = {'mutants': 0, 'mutants_detected': 0, 'benign_twins': 0, 'benign_silent': 0, 'seeded_changes': 0, 'seeded_detected': 0, 'stale': 0, 'failures': [], 'results': []}
     for prop_, kind, name, status, detail in res:
         out['results'].append({'kind': kind, 'name': name, 'status': status, 'detail': detail})
         if status == 'stale':
             out['stale'] += 1
             continue
-        if kind == 'mutant':
+        if kind == 'seed':
+            out['seeded_changes'] += 1
+            if status == 'ok':
+                out['seeded_detected'] += 1
+            else:
+                out['failures'].append('seeded change %s: %s' % (name, detail))
+        elif kind == 'mutant':
             out['mutants'] += 1
             if status == 'TIMEOUT':
                 out['failures'].append('mutant %s: %s' % (name, detail))
@@ -133,7 +236,7 @@ if __name__ == '__main__':
     props = sys.argv[1:] or sorted({c[0] for c in (_load() or REGISTRY)})
     for p in props:
         r = run_for(p)
-        print(p, 'mutants %d/%d benign %d/%d stale %d' % (r['mutants_detected'], r['mutants'], r['benign_silent'], r['benign_twins'], r['stale']))
+        print(p, 'mutants %d/%d benign %d/%d seeded %d/%d stale %d' % (r['mutants_detected'], r['mutants'], r['benign_silent'], r['benign_twins'], r['seeded_detected'], r['seeded_changes'], r['stale']))
         for x in r['results']:
             if x['status'] not in ('ok',):
                 print('   ', x)
